@@ -57,6 +57,7 @@ FIXES = [
     ('29-C02-yanny-file-objects-without-mode.patch', 'C02', 'C02.BINARY'),
     ('30-C16-readspec-znum-row.patch', 'C16', 'C16.ROWSEL'),
     ('31-C17-aesthetics-mean-only-zero-ivar.patch', 'C17', 'C17.AESTH'),
+    ('32-C02-char_length-empty-table.patch', 'C02', 'C02.CHARLEN'),
 ]
 
 
